@@ -39,6 +39,7 @@ type world struct {
 	recvd1  []lib.M // v1 packets relayed to this chain
 	recvd2  []lib.M
 	clients []string
+	subsec  bool // block times carry sub-second parts in this history
 }
 
 func (w *world) now() lib.M { return lib.M{"h": lib.U(w.h), "t": lib.U(w.t)} }
@@ -47,7 +48,7 @@ func (w *world) tick() {
 	if w.r.Chance(0.5) {
 		w.h += uint64(w.r.Intn(3))
 		w.t += uint64(w.r.Intn(7)) * 1000000000
-		if w.r.Chance(0.3) {
+		if w.subsec && w.r.Chance(0.3) {
 			w.t += uint64(w.r.Intn(1000000000))
 		}
 	}
@@ -415,7 +416,7 @@ func (w *world) sendV2() {
 	}
 	nowSec := w.t / 1000000000
 	var tt uint64
-	switch r.Intn(14) {
+	switch r.Intn(11) {
 	case 0:
 		tt = nowSec - 1
 	case 1:
@@ -1064,7 +1065,11 @@ func history(bias string, wt weights) func(env *Env, r *lib.Rng, emit func(lib.M
 	return func(env *Env, r *lib.Rng, emit func(lib.M) any) {
 		w := &world{env: env, r: r, emit: emit, sh: NewShadow(), bias: bias}
 		w.h = 5 + uint64(r.Intn(20))
-		w.t = (baseTime+uint64(r.Intn(100000)))*1000000000 + uint64(r.Intn(2))*uint64(r.Intn(1000000000))
+		w.subsec = r.Bool()
+		w.t = (baseTime + uint64(r.Intn(100000))) * 1000000000
+		if w.subsec {
+			w.t += uint64(r.Intn(1000000000))
+		}
 		emit(lib.M{"f": "reset"})
 		w.setup()
 		n := 5 + r.Intn(56)
